@@ -39,6 +39,8 @@ func serveGroupRun(line string) (string, string) {
 		return locRun(f)
 	case "frame":
 		return frameRun(f)
+	case "ctx":
+		return ctxRun(f) // c02ctx.go: the per-request context cache against a real RocksDB
 	}
 	return "bad-op", "-"
 }
@@ -82,6 +84,12 @@ func c02gen(g *gen, tier string, w *bufio.Writer) {
 		}
 		fmt.Fprintln(w, serveOpLine(df, qs))
 	}
+	// the per-request context cache (c02ctx.go), after the serve cases so that their stream is unchanged
+	nc := 40
+	if tier == "thorough" {
+		nc = 1000
+	}
+	ctxGen(g, nc, w)
 }
 
 // ---- C10: EDNS / client subnet -------------------------------------------------------------------
